@@ -17,6 +17,10 @@ PCands == (IF CanRecv(K) THEN {Recv(K)} ELSE {}) \cup (IF CanStep1(K) THEN {Step
           \cup {Pop(K, x[1], x[2]) : x \in {y \in Spaces \X BOOLEAN : CanPop(K, y[1], y[2])}}
 PickAct == IF Coin(3) THEN "Plot" ELSE IF Coin(2) THEN "Mine" ELSE IF Coin(2) THEN "Stop" ELSE IF Coin(2) THEN "Remove" ELSE "Delete"
 GInit == Init /\ hist = <<[a |-> "Init", st |-> K.st]>>
+\* the chia keeper (skchia): every space is plotted elsewhere and starts ready
+GInitReady == /\ K = [st |-> [w \in Spaces |-> "ready"], using |-> [w \in Spaces |-> TRUE], chan |-> <<>>, queue |-> EmptyBag,
+                      plt |-> Idle, run |-> FALSE, files |-> [w \in Spaces |-> TRUE]]
+              /\ hist = <<[a |-> "Init", st |-> K.st]>>
 GNext ==
   \/ \E i \in W(6) : \E w \in {RS(Spaces)}, a \in {PickAct} :
         ~Blocks(K, w, a) /\ K' = Act(K, w, a) /\ Log([a |-> "Act", w |-> w, act |-> a])
